@@ -248,6 +248,9 @@ pub fn bad_menu(cfg: &Cfg) -> Vec<Op> {
         ops.push(Op::Bad(Bad::WrapPartialMaskLen(d)));
         ops.push(Op::Bad(Bad::WrapInChans(d)));
         ops.push(Op::Bad(Bad::WrapPartialInChans(d)));
+        // the same count errors under a mask that switches every channel off
+        ops.push(Op::Bad(Bad::AllOffOutChans(d)));
+        ops.push(Op::Bad(Bad::AllOffInChans(d)));
     }
     ops.push(Op::Bad(Bad::WrapInShort(0, 1)));
     ops.push(Op::Bad(Bad::WrapInShort((n - 1) as u8, 3)));
